@@ -37,6 +37,9 @@ type Piece struct {
 	Reversed   bool
 	// Dir is the direction in which the way, as stored, runs around its ring in the truth.
 	Dir orb.Orientation
+	// Ver is the way's version minus one and Epoch the relation version (0-based) shortly before
+	// which this way version was written; both 0 unless the instance is part of a history.
+	Ver, Epoch int
 }
 
 // Instance is a ground truth together with one way of presenting it as a relation.
@@ -267,7 +270,7 @@ var (
 )
 
 func (in *Instance) way(pc *Piece, located bool) *osm.Way {
-	w := &osm.Way{ID: pc.ID, Version: 1, Visible: true, ChangesetID: 7, Timestamp: tChild}
+	w := &osm.Way{ID: pc.ID, Version: pc.Ver + 1, Visible: true, ChangesetID: osm.ChangesetID(7 + 100*pc.Epoch), Timestamp: epochTime(pc.Epoch)}
 	for _, vi := range pc.V {
 		v := in.Verts[vi]
 		wn := osm.WayNode{ID: v.ID}
